@@ -145,7 +145,7 @@ package cookie
 //@ at call joinCookies assert[joins-the-collected-parts-under-the-base-name] arg(joinCookies, 0) == cookies && arg(joinCookies, 1) == cookieName && len(cookies) > 0
 
 //@ func (*SessionStore).setSessionCookie
-//@ prop C10 C18
+//@ prop C10 C18 C12
 //@ at call http.SetCookie#0 assert[sets-every-part] arg(http.SetCookie#0, 0) == rw && ret1(makeSessionCookie) == nil
 //@     && arg(http.SetCookie#0, 1) == ret0(makeSessionCookie)[rangeindex + 1]
 //@ at call isSessionCookieName assert[asks-about-each-presented-cookie-under-the-configured-name] arg(isSessionCookieName, 0) == s.Cookie.Name
